@@ -70,6 +70,7 @@ fn run(args: &[String]) {
         let steps = sc["steps"].as_array().cloned().unwrap_or_default();
         runner.run_steps(&steps);
         log.emit(json!({"ev": "end", "id": sc["id"], "index": i}));
+        runner.finish_scenario();
     }
     if std::env::var("CV_KEEP").is_err() {
         tree::remove_tree(&work);
